@@ -47,6 +47,9 @@ type MitigationParams struct {
 	// opens. What is left of the closed session works from the cluster map of ITS time and must not feed the
 	// thresholds of the new one
 	StaleSession bool `json:"stale_session"`
+	// DiskSnapshot: the snapshot markers announce disk snapshots (backfill) instead of memory snapshots: "on disk"
+	// is a statement about the active copy only, the gate applies all the same
+	DiskSnapshot bool `json:"disk_snapshot"`
 }
 
 // persistence feeds of one copy (uA = the branch the stream was opened on, uB = another branch)
@@ -104,6 +107,9 @@ func init() {
 				{Scenario: "c07_gate", Params: mustJSON(MitigationParams{Replicas: 1, SeqAdv: true}), Bound: b - 1, Shards: 8, Note: "a seqno-advanced event behind two documents: absorbed only once covered"},
 				{Scenario: "c07_gate", Params: mustJSON(MitigationParams{Replicas: 1, EpochAssign: true, StaleSession: true}), Bound: 0, Shards: 8, Note: "the session that follows a Rebalance() which closed the first one while its rollback mitigation was still loading fail-over logs; a copy becomes listed afterwards: what is left of the closed session knows the old map only and must stay silent"},
 				{Scenario: "c07_gate", Params: mustJSON(MitigationParams{Replicas: 2, EpochAssign: true, Grow: true, StaleSession: true}), Bound: 0, Shards: 16, Note: "the same with an ADDITIONAL copy listed afterwards"},
+				{Scenario: "c07_gate", Params: mustJSON(MitigationParams{Replicas: 1, DiskSnapshot: true}), Bound: 0, Shards: 8, Note: "the events arrive in a disk (backfill) snapshot: they wait at the gate like any other"},
+				{Scenario: "c07_gate", Params: mustJSON(MitigationParams{Replicas: 1, DiskSnapshot: true, TransientEnd: true}), Bound: 0, Shards: 8, Note: "disk snapshots, with a transient end and a re-open"},
+				{Scenario: "c07_member2", Params: mustJSON(struct{}{}), Bound: 0, Note: "a member that does not own vBucket 0, non-uniform cluster map (an unassigned replica in a row of a vBucket it does not stream): the copies of ITS vBuckets count"},
 				{Scenario: "c07_rebalance", Params: mustJSON(struct{}{}), Bound: 0, Note: "the session after a real Rebalance() with a slow re-open and copies that keep reporting the same figures"},
 				{Scenario: "c07_gate", Params: mustJSON(MitigationParams{Replicas: 1, Stall: true}), Bound: 0, Shards: 8, Note: "the DCP thread stalls for two observe intervals at every scheduling point (lost wake-up between the gate's check and its wait)"},
 			}
@@ -213,6 +219,13 @@ func c07Pure(tier string) *PureResult {
 
 func gateMain(p MitigationParams) {
 	resetGlobals()
+	marker := func(a, b uint64) gocbcore.SimPacket {
+		m := marker(a, b)
+		if p.DiskSnapshot {
+			m.Flags = 2 // a snapshot the server reads from disk (backfill): start-up with a backlog, a re-open
+		}
+		return m
+	}
 	nodes := p.Replicas + 1
 	o := EnvOpts{Vbs: 1, Nodes: nodes, Replicas: p.Replicas, CheckpointType: "manual", Mitigation: true, WrapMeta: true}
 	c := NewCluster(&o)
@@ -591,6 +604,71 @@ func init() {
 				}
 			}
 			vrt.SetOutcome(fmt.Sprintf("slow=%d", slow))
+			e.Stream.Close(false)
+		}}
+	}
+}
+
+// c07_member2: the member does not own vBucket 0 (member 2 of 2 or 2 of 4 of 4 vBuckets) and the cluster map is
+// not uniform: the replica slot of a vBucket this member does NOT stream is unassigned, those of its own vBuckets
+// are assigned and lag (persisted 1 while the active copy has 3). "Every copy of THAT vBucket listed in the
+// cluster map": events 2 and 3 wait until the replica reports, whatever the rows of other vBuckets say.
+func init() {
+	scenarios["c07_member2"] = func(raw json.RawMessage) *vrt.Scenario {
+		return &vrt.Scenario{Name: "c07_member2", FreeChoices: true, NoTimerAlt: true, MaxSteps: 2_000_000, Main: func() {
+			resetGlobals()
+			total := []int{2, 4}[vrt.Choose(2, true, "group-size")]
+			hole := vrt.Choose(2, true, "which-foreign-row-has-the-unassigned-replica") // vb0 or vb1 (vb1 is foreign only for total 4)
+			o := EnvOpts{Vbs: 4, Nodes: 2, Replicas: 1, CheckpointType: "manual", Mitigation: true, WrapMeta: true, MemberNumber: 2, Total: total}
+			c := NewCluster(&o)
+			first := uint16(2) // member 2/2 owns 2..3
+			last := uint16(3)
+			if total == 4 {
+				first, last = 1, 1 // member 2/4 owns vb1
+			}
+			if uint16(hole) >= first && uint16(hole) <= last {
+				vrt.SetOutcome("n/a")
+				return
+			}
+			c.VbMap[hole][1] = -1
+			for vb := first; vb <= last; vb++ {
+				u := c.Vb[vb].Failover[0].VbUUID
+				c.SetPersist(vb, 0, gocbcore.SimPersist{VbUUID: u, Persist: 3, Current: 3})
+				c.SetPersist(vb, 1, gocbcore.SimPersist{VbUUID: u, Persist: 1, Current: 3})
+				c.Append(vb, marker(1, 3), symbolPacket("M", 1), symbolPacket("M", 2), symbolPacket("M", 3))
+			}
+			e := NewEnv(c, o)
+			e.Cons.AutoAck = true
+			e.Stream.Open()
+			interval := e.Cfg.RollbackMitigation.Interval
+			vrt.Sleep(6 * interval)
+			vrt.Quiesce()
+			desc := fmt.Sprintf("member 2/%d of 4 vBuckets (owns %d..%d), the replica of vb%d (not streamed here) is unassigned", total, first, last, hole)
+			for _, d := range e.Cons.Events {
+				if d.Seq > 1 {
+					vrt.Failf("%s: event seq %d of vb%d was delivered while the replica of vb%d had persisted 1 only", desc, d.Seq, d.Vb, d.Vb)
+				}
+			}
+			observed := 0
+			for _, r := range c.RequestsOf("observevb") {
+				if r.Vb >= first && r.Vb <= last && r.Replica == 1 {
+					observed++
+				}
+			}
+			if observed == 0 {
+				vrt.Failf("%s: the replicas of the streamed vBuckets were never asked for their persisted seqno", desc)
+			}
+			// the replicas catch up: everything is delivered
+			for vb := first; vb <= last; vb++ {
+				c.SetPersist(vb, 1, gocbcore.SimPersist{VbUUID: c.Vb[vb].Failover[0].VbUUID, Persist: 3, Current: 3})
+			}
+			vrt.Sleep(6 * interval)
+			vrt.Quiesce()
+			want := 3 * int(last-first+1)
+			if len(e.Cons.Events) != want {
+				vrt.Failf("%s: %d of %d events delivered after every copy has persisted 3", desc, len(e.Cons.Events), want)
+			}
+			vrt.SetOutcome(desc)
 			e.Stream.Close(false)
 		}}
 	}
